@@ -15,7 +15,7 @@ from lib import gz, gtext, glist, gbool, gopt, gpair
 THEOREMS = ['C11_hit', 'C11_exactly_named', 'C11_miss', 'C11_other_namespace_miss',
             'C11_near_miss', 'C11_construct_iff', 'C11_permutation', 'C11_duplicate_rejected',
             'C11_dispatch_channels', 'C11_http_unambiguous', 'C11_http_fallback',
-            'C11_pattern_order', 'C11_identical_pattern_rejected', 'C11_permutation_served']
+            'C11_pattern_order', 'C11_identical_pattern_rejected', 'C11_permutation_served', 'C11_nameless']
 
 SRC_THEOREMS = ['C11_src_shape', 'C11_src_formats', 'C11_src_get_call_handles', 'C11_src_process_method',
                 'C11_src_last_segment']
@@ -169,6 +169,11 @@ class Driver(object):
             if k == 'soap':
                 el = ('<e:Envelope xmlns:e="http://schemas.xmlsoap.org/soap/envelope/"><e:Body>%s</e:Body></e:Envelope>' % el)
             body = el.encode('utf8')
+        elif k == 'soap-fault':
+            # a SOAP Fault element as the request body: it names no method
+            body = ('<e:Envelope xmlns:e="http://schemas.xmlsoap.org/soap/envelope/"><e:Body><e:Fault>'
+                    '<faultcode>%s</faultcode><faultstring>%s</faultstring></e:Fault></e:Body></e:Envelope>'
+                    % (req['code'], req['string'])).encode('utf8')
         elif k == 'json':
             body = json.dumps({req['key']: {}}).encode('utf8')
             env['CONTENT_TYPE'] = 'application/json'
@@ -369,6 +374,11 @@ def g_view(view):
 def g_hpats(ps):
     return glist(['(%s, %s, %s)' % (gtext(a), gopt(v, gtext), gtext(n)) for a, v, n in ps])
 
+def g_wire(r):
+    if r['kind'] == 'soap-fault':
+        return 'Nameless'
+    return '(Named %s)' % g_req(r)
+
 def g_req(r):
     k = r['kind']
     if k in ('xml', 'soap'):
@@ -386,11 +396,11 @@ CONSTRUCT_SHOW = ('(fun c : %s => let \'(a, code, view, scode, ps) := c in match
                   '| Built t => (0, table_view t, match server_patterns t with Built ps\' => (0, ps\') '
                   '| Rejected r => (reject_code r, []) end) '
                   '| Rejected r => (reject_code r, [], (0, [])) end)' % CONSTRUCT_TYPE)
-DISPATCH_TYPE = 'app * list (request * bool * list Z)'
+DISPATCH_TYPE = 'app * list (wire * bool * list Z)'
 DISPATCH_OKB = '(fun c : %s => dispatch_obs_eqb (fst c) (snd c))' % DISPATCH_TYPE
 DISPATCH_SHOW = ('(fun c : %s => match serve (fst c) with '
-                 '| Built (t, ps) => (true, map (fun q : request * bool * list Z => '
-                 'dispatch (a_tns (fst c)) t ps (fst (fst q))) (snd c)) | Rejected _ => (false, []) end)' % DISPATCH_TYPE)
+                 '| Built (t, ps) => (true, map (fun q : wire * bool * list Z => '
+                 'dispatch_wire (a_tns (fst c)) t ps (fst (fst q))) (snd c)) | Rejected _ => (false, []) end)' % DISPATCH_TYPE)
 
 # ------------------------------------------------------------------ generators
 BASES = ['foo', 'get', 'a', 'Echo', 'x_1', 'ab', 'put', 'Item']
@@ -608,6 +618,10 @@ def gen_requests(rng, spec, prot, nper):
                 reqs.append({'kind': 'http', 'verb': verb, 'path': '/' + n + '/'})
             if rng.random() < 0.2:
                 reqs.append({'kind': 'http', 'verb': verb, 'path': '/{%s}%s' % (rng.choice(others + [tns]), n)})
+    if prot == 'soap':
+        # a Fault element instead of a method element; its texts are registered names, to tempt the router
+        for n in (names[:2] or ['x']):
+            reqs.append({'kind': 'soap-fault', 'code': rng.choice(['Client', 'Server', n]), 'string': n})
     if prot == 'http':
         # paths aimed at the patterns
         for s, m in spec_methods(spec):
@@ -628,6 +642,8 @@ def named_by(spec, req):
     names nothing of this application (other namespace)  -> ('name', n) | ('none',) | ('ambiguous', names)"""
     tns = spec['tns']
     k = req['kind']
+    if k == 'soap-fault':
+        return ('none',)
     if k in ('xml', 'soap'):
         if req.get('ns') is None or req['ns'] == tns:
             return ('name', req['local'])
@@ -842,7 +858,7 @@ def run_spec(check, label, spec, tier, stats, ccases, dcases, full_requests=True
                 status, body, invoked = drv.call(req)
                 oracle_request(check, sp, perm, prot, req, (status, body, invoked), stats)
                 found = not is_not_found(status, body)
-                obs_terms.append('(%s, %s, %s)' % (g_req(req), gbool(found), glist([gz(u) for u in invoked])))
+                obs_terms.append('(%s, %s, %s)' % (g_wire(req), gbool(found), glist([gz(u) for u in invoked])))
                 check.count(('req', prot, json.dumps(sp, sort_keys=True), json.dumps(req, sort_keys=True)))
                 stats['requests'] = stats.get('requests', 0) + 1
                 stats['req_' + prot] = stats.get('req_' + prot, 0) + 1
@@ -867,7 +883,8 @@ def run(check):
                   'the service list up to 4 services (24 sampled of 120 for 5), each built with Application(...) and then '
                   'WsgiApplication(app); requests: every registered name and its near misses (case, prefix, suffix, '
                   'separator, blank, other namespace, doubly qualified) through HttpRpc URL path and HttpPattern, XmlDocument '
-                  'root tag, Soap11 body child, JsonDocument / MessagePackDocument single key, MessagePackRpc method field; '
+                  'root tag, Soap11 body child, JsonDocument / MessagePackDocument single key, MessagePackRpc method field, and '
+                  'SOAP Fault elements sent as the request (method_request_string None: nothing may run, not found); '
                   'applications with overlapping patterns are rebuilt several times in two service orders and a request '
                   'that tells two pattern orders apart is driven through both servers. '
                   'A case is distinct by (application spec in its service order) for constructions and by '
@@ -901,6 +918,11 @@ def run(check):
         'requests go through WsgiApplication; the response protocol is JsonDocument (Soap11 for Soap11 requests)',
     ]
     check.regen(['routekeys'])
+    from translate import routekeys
+    why = routekeys.shape_report(os.path.join(lib.COQ, 'Gen'))
+    if why:
+        # say WHICH function no longer has the shape the model mirrors (the proof side only sees rk_shape_ok = false)
+        check.broken.append(('translator', 'routekeys', why))
     check.check_sources()
     check.prove('Props.C11', THEOREMS)
     check.prove('Props.C11_src', SRC_THEOREMS)
